@@ -638,6 +638,40 @@ func runC07(c *Ctx) error {
 			w.Count("files.without-annotation")
 		}
 	}
+	// ---- outside the abstract shape: a comment that repeats a key.  Each run is compared with the byte-level model;
+	// a second and third run must leave the bytes of the first run alone (observed directly).
+	dupFiles := []string{
+		"package p\n\ntype T struct {\n\tA int `json:\"a\"` // @tag valid:\"a\" valid:\"b\"\n}\n",
+		"package p\n\ntype T struct {\n\tB int `json:\"b\" valid:\"x\"` // @tag valid:\"a\" json:\"q\" valid:\"b\"\n}\n",
+		"package p\n\ntype T struct {\n\tC int `valid:\"x\" json:\"c\"` // @tag json:\"1\" json:\"2\" json:\"3\"\n\tD int `a:\"1\"` // @tag a:\"1\" a:\"1\"\n}\n",
+		"package p\n\ntype T struct {\n\tE int `k:\"v\" k:\"w\"` // @tag k:\"z\" k:\"y\" m:\"1\"\n}\n",
+	}
+	for i, in := range dupFiles {
+		dir := filepath.Join(tmp, fmt.Sprintf("dup%d", i))
+		path := filepath.Join(dir, "dup.go")
+		if err := mustWrite(path, in); err != nil {
+			return err
+		}
+		prev := in
+		for n := 1; n <= 3; n++ {
+			a, perr := parseOnly(path)
+			if perr != nil {
+				violations = append(violations, map[string]interface{}{"kind": "output-no-longer-parses", "run": n, "error": perr.Error(), "input": in, "bytes": prev})
+				break
+			}
+			if _, _, werr := libRun(path); werr != nil {
+				violations = append(violations, map[string]interface{}{"kind": "library-write-error", "error": werr.Error(), "input": in})
+			}
+			out := readStr(path)
+			w.Add("CBytes "+gal.Str(prev)+" "+galAreas(a)+" "+gal.Str(out), map[string]interface{}{"kind": "repeated key in the comment", "run": n, "input": prev, "bytes_after": out},
+				fmt.Sprintf("dupkey:%d:run%d", i, n))
+			if n >= 2 && out != prev {
+				violations = append(violations, map[string]interface{}{"kind": "not-idempotent", "run": n, "input": in, "before": prev, "after": out})
+			}
+			prev = out
+		}
+		w.Count("files.repeated-key")
+	}
 	violations = append(violations, libPanics...)
 	w.Extra["violations"] = violations
 	return w.Flush()
